@@ -646,7 +646,7 @@ def wait_enum_cases(prefix="wq"):
     blocked Pull max 5) with every availability event (publish 1, publish 3, nack, expiry, empty publish),
     observed after each event."""
     T, Sn = hx(tname("p", "t")), hx(sname("p", "s"))
-    kinds = {"s1": ("S", 1), "s10": ("S", 10), "p1": ("P", 1), "p5": ("P", 5)}
+    kinds = {"s1": ("S", 1), "s10": ("S", 10), "p1": ("P", 1), "p5": ("P", 5), "s0": ("S", 0), "p0": ("P", 65536)}
     events = {
         "pub1": ["PUB %s 1 61 0" % T], "pub3": ["PUB %s 3 61 0 62 0 63 0" % T], "pub0": ["PUB %s 0" % T],
         "nack": ["MOD %s 0 1 @0" % Sn], "expire": ["ADV %d" % (10200 * MS)], "ack": ["ACK %s 1 @0" % Sn],
@@ -654,7 +654,10 @@ def wait_enum_cases(prefix="wq"):
     cases = []
     import itertools
     names = list(kinds)
-    combos = [c for r in (1, 2, 3) for c in itertools.product(names, repeat=r)]
+    base = [k for k in names if k not in ("s0", "p0")]
+    combos = [c for r in (1, 2, 3) for c in itertools.product(base, repeat=r)]
+    # consumers whose batch limit is 0 (one message per pull): alone, and in front of / behind an ordinary one
+    combos += [("s0",), ("p0",), ("s0", "p1"), ("p1", "s0"), ("s0", "s1"), ("p0", "p5"), ("s0", "p0"), ("s0", "p5", "s10")]
     evseqs = [("pub1", "nack", "pub3"), ("pub3", "expire", "pub1"), ("pub0", "pub1", "expire"),
               ("pub1", "pub0", "pub3", "nack"), ("pub3", "ack", "expire", "pub0", "pub1")]
     n = 0
@@ -1236,4 +1239,28 @@ def pull_limit_cases(prefix="pl300"):
         ops += ["ADV %d" % ((300 - t) * S - MS), "JOIN 100", "ADV %d" % (2 * MS), "JOIN 100", "PUB %s 0" % T,
                 "ADV %d" % (gap * S), "JOIN 100", "STATS " + Sn]
         cases.append(("%s-%d" % (prefix, gap), ops))
+    return cases
+
+
+def requeue_order_cases(prefix="rq"):
+    """Two or three Publish requests of 30-60 messages; a few are pulled and come back (nack or expiry) while most of
+    the backlog has never been delivered; then everything is pulled: the first deliveries must still be in publish
+    order (a requeue may move redeliveries, never the messages nobody has seen yet)."""
+    T, Sn = hx(tname("p", "t")), hx(sname("p", "s"))
+    cases = []
+    n = 0
+    for sizes in ((40, 40), (30, 30, 30), (60, 25), (100, 1)):
+        for first in (1, 5, 25):
+            for how in ("nack", "expire"):
+                ops = ["SEED %d" % n, "CT " + T, "CS %s %s 10 ~" % (Sn, T)]
+                ops += ["PUBN %s %d %s" % (T, k, hx("r%d" % i)) for i, k in enumerate(sizes)]
+                ops += ["PULL %s %d 1" % (Sn, first)]
+                if how == "nack":
+                    ops.append("MOD %s 0 %d %s" % (Sn, first, " ".join("^%d" % j for j in range(first))))
+                else:
+                    ops.append("ADV %d" % (10200 * MS))
+                ops += ["STATS " + Sn, "PULL %s 1000 1" % Sn, "STATS " + Sn, "ADV %d" % (10200 * MS), "PULL %s 7 1" % Sn,
+                        "PULL %s 1000 1" % Sn]
+                cases.append(("%s%d" % (prefix, n), ops))
+                n += 1
     return cases
